@@ -14,6 +14,7 @@ import (
 
 func init() {
 	verifHarnesses["H_c06"] = H_c06
+	verifHarnesses["H_c06_local"] = H_c06_local
 	verifHarnesses["H_c07"] = H_c07
 	verifHarnesses["H_c08"] = H_c08
 }
@@ -230,6 +231,58 @@ func H_c06() {
 	err4 := ProcessMongoLogFileFromReader(&verifLineReader{lines: lines, tooLongAt: -1, crlf: true, noFinalNL: true}, w4, nil)
 	verifAssert(err4 == nil, "reader-ok")
 	verifSameWrites(w4.writes, want, "reader")
+}
+
+func verifApplyMode(mode int) {
+	verifConfigSym()
+	switch mode {
+	case 1:
+		SetEagerRedactionPaths([]string{verifString("eagerPrefix")})
+	case 2:
+		SetRedactedFieldsRegexp(`^(ssn|email|phoneNumber)$`)
+	}
+}
+
+// H_c06_local: line-locality against hidden state. Each line is redacted on its own in a fresh
+// process state; then both lines go through one run, in both orders: every line must come out
+// as it does alone (so nothing remembered from an earlier line - a cache, a "current namespace",
+// a memo table - can influence a later one), in placeholder, field-name and selective mode.
+func H_c06_local() {
+	mode := 2
+	if verifParam("mode") != "selective" {
+		mode = verifChoose("mode", 3)
+	}
+	for _, n := range []string{"L0", "L1"} {
+		verifAssumeSimpleNames(n)
+		verifAssumeLiterals(n)
+		for _, g := range verifHoles(n, "G") {
+			verifAssume(g != "")
+		}
+	}
+	l0, l1 := verifLine("L0"), verifLine("L1")
+	verifFreshProcess()
+	verifApplyMode(mode)
+	a0, ok0 := verifRedactLine(l0)
+	verifFreshProcess()
+	verifApplyMode(mode)
+	a1, ok1 := verifRedactLine(l1)
+	verifAssume(ok0 && ok1)
+	verifFreshProcess()
+	verifApplyMode(mode)
+	w := &verifWriter{}
+	err := processMongoLogStream(&verifLineReader{lines: []string{l0, l1}, tooLongAt: -1}, w, nil)
+	verifAssert(err == nil, "stream-ok")
+	verifSameWrites(w.writes, []string{a0 + "\n", a1 + "\n"}, "as-alone")
+	for _, e := range w.writes {
+		verifEmit(e)
+	}
+	verifReach("emitted")
+	verifFreshProcess()
+	verifApplyMode(mode)
+	w2 := &verifWriter{}
+	err2 := processMongoLogStream(&verifLineReader{lines: []string{l1, l0}, tooLongAt: -1}, w2, nil)
+	verifAssert(err2 == nil, "stream-ok-reversed")
+	verifSameWrites(w2.writes, []string{a1 + "\n", a0 + "\n"}, "as-alone-reversed")
 }
 
 // verifModeConfig: placeholder, field-name or selective mode (chosen by the solver).
